@@ -20,8 +20,10 @@ EXTENDS SystemOps, Json
 H == ndJsonDeserialize("cases.ndjson")
 TheCfg == ndJsonDeserialize("sysconfig.ndjson")[1]
 
-VARIABLES h, l, ph, nb, cs, store, inq, tdirty, em, det
-vars == <<h, l, ph, nb, cs, store, inq, tdirty, em, det>>
+VARIABLES h, l, ph, nb, hb, cs, store, inq, tdirty, em, det
+vars == <<h, l, ph, nb, hb, cs, store, inq, tdirty, em, det>>
+\* at most MaxHidden silent steps between two recorded steps (a timer that re-creates itself would otherwise make the search infinite)
+MaxHidden == 8
 
 Steps == H[h].steps
 Inputs == Cfg.inputs
@@ -31,7 +33,7 @@ Barrier == Item(Obj([to |-> Str("probe")]), NoOp)
 Flat(batches) == FoldLeft(LAMBDA a, b : a \o b, <<>>, batches)
 Without1(s, k) == [i \in 1..(Len(s) - 1) |-> IF i < k THEN s[i] ELSE s[i + 1]]
 
-Init == /\ h \in DOMAIN H /\ l = 1 /\ ph = "act" /\ nb = 0
+Init == /\ h \in DOMAIN H /\ l = 1 /\ ph = "act" /\ nb = 0 /\ hb = 0
         /\ cs = [ms |-> Cfg.init, tbs |-> EmptyFn, tmap |-> EmptyFn, cbs |-> EmptyFn, gen |-> 0]
         /\ store = [ms |-> Cfg.init, tm |-> [bs |-> EmptyFn, map |-> EmptyFn]]
         /\ inq = <<>> /\ tdirty = FALSE /\ em = <<>> /\ det = TRUE
@@ -46,11 +48,13 @@ Processed(it) ==
 
 \* ---- silent steps
 HiddenFire == \E id \in DOMAIN cs.tmap :
+                /\ hb < MaxHidden /\ hb' = hb + 1
                 /\ cs' = [cs EXCEPT !.tmap = Drop(cs.tmap, id)]
                 /\ inq' = Append(inq, cs.tmap[id].msg)
                 /\ tdirty' = TRUE
                 /\ UNCHANGED <<h, l, ph, nb, store, em, det>>
 HiddenDeliver == \E k \in DOMAIN inq :
+                   /\ hb < MaxHidden /\ hb' = hb + 1
                    /\ Processed(Item(inq[k], NoOp))
                    /\ inq' = Without1(inq, k)
                    /\ UNCHANGED <<h, l, ph, nb>>
@@ -72,23 +76,23 @@ Act == /\ det /\ l <= Len(Steps) /\ ph = "act"
        /\ LET a == Steps[l].act IN
           IF a[1] = "s" THEN Processed(ItemOf(a[2])) /\ inq' = inq
           ELSE UNCHANGED <<cs, store, inq, tdirty, em, det>>
-       /\ ph' = "pre" /\ nb' = Steps[l].pre /\ UNCHANGED <<h, l>>
+       /\ ph' = "pre" /\ nb' = Steps[l].pre /\ hb' = 0 /\ UNCHANGED <<h, l>>
 Pre == /\ det /\ ph = "pre" /\ nb > 0
        /\ Processed(Barrier) /\ inq' = inq
-       /\ nb' = nb - 1 /\ UNCHANGED <<h, l, ph>>
+       /\ nb' = nb - 1 /\ hb' = 0 /\ UNCHANGED <<h, l, ph>>
 PreDone == /\ det /\ ph = "pre" /\ nb = 0
            /\ IF Steps[l].act[1] = "r"
               THEN /\ cs' = Boot(store, cs.gen) /\ inq' = <<>> /\ tdirty' = FALSE
                    /\ UNCHANGED <<store, em, det>>
               ELSE UNCHANGED <<cs, store, inq, tdirty, em, det>>
-           /\ ph' = "fin" /\ UNCHANGED <<h, l, nb>>
+           /\ ph' = "fin" /\ UNCHANGED <<h, l, nb, hb>>
 Fin == /\ det /\ ph = "fin"
        /\ Steps[l].real = "ok"
        /\ LET r == Process(cs, Barrier) IN
           /\ SameBag(Steps[l].emitted, em \o Flat(r.emitted))
           /\ cs' = r.cs /\ em' = <<>> /\ det' = (det /\ r.det)
           /\ store' = StoreAfter(store, r.cs, r.tmoved, tdirty) /\ tdirty' = FALSE
-       /\ ph' = "obs" /\ UNCHANGED <<h, l, nb, inq>>
+       /\ ph' = "obs" /\ hb' = 0 /\ UNCHANGED <<h, l, nb, inq>>
 NormMs(ms) == [k \in DOMAIN ms |-> [spec |-> ms[k].spec, st |-> NormSt(ms[k].st)]]
 Obs == /\ det /\ ph = "obs"
        /\ LET o == Steps[l] IN
@@ -97,7 +101,7 @@ Obs == /\ det /\ ph = "obs"
           /\ NormBs(o.store.tm.bs) = NormBs(store.tm.bs)
           /\ o.store.tm.node = "start"
        /\ l' = l + 1 /\ ph' = "act"
-       /\ UNCHANGED <<h, nb, cs, store, inq, tdirty, em, det>>
+       /\ UNCHANGED <<h, nb, hb, cs, store, inq, tdirty, em, det>>
 
 Next == (det /\ (HiddenFire \/ HiddenDeliver)) \/ Act \/ Pre \/ PreDone \/ Fin \/ Obs
 Spec == Init /\ [][Next]_vars
